@@ -10,14 +10,34 @@ impl vstd::std_specs::cmp::PartialEqSpecImpl for PublicKey {
 impl PartialEq for PublicKey { fn eq(&self, other: &Self) -> bool { self.0 == other.0 } }
 #[derive(Clone, Copy, PartialEq, Eq, Debug)]
 pub struct SecretKey(pub u64);
-#[derive(Clone, Copy, PartialEq, Eq, Hash, Debug)]
+#[derive(Clone, Copy, Eq, Hash, Debug)]
 pub struct BlockHash(pub u64);
-#[derive(Clone, Copy, PartialEq, Eq, Hash, Debug)]
+impl vstd::std_specs::cmp::PartialEqSpecImpl for BlockHash {
+    open spec fn obeys_eq_spec() -> bool { true }
+    open spec fn eq_spec(&self, other: &BlockHash) -> bool { *self == *other }
+}
+impl PartialEq for BlockHash { fn eq(&self, other: &Self) -> bool { self.0 == other.0 } }
+#[derive(Clone, Copy, Eq, Hash, Debug)]
 pub struct Txid(pub u64);
-#[derive(Clone, Copy, PartialEq, Eq, Hash, Debug)]
+impl vstd::std_specs::cmp::PartialEqSpecImpl for Txid {
+    open spec fn obeys_eq_spec() -> bool { true }
+    open spec fn eq_spec(&self, other: &Txid) -> bool { *self == *other }
+}
+impl PartialEq for Txid { fn eq(&self, other: &Self) -> bool { self.0 == other.0 } }
+#[derive(Clone, Copy, Eq, Hash, Debug)]
 pub struct Locator(pub u64);
-#[derive(Clone, Copy, PartialEq, Eq, Hash, Debug)]
+impl vstd::std_specs::cmp::PartialEqSpecImpl for Locator {
+    open spec fn obeys_eq_spec() -> bool { true }
+    open spec fn eq_spec(&self, other: &Locator) -> bool { *self == *other }
+}
+impl PartialEq for Locator { fn eq(&self, other: &Self) -> bool { self.0 == other.0 } }
+#[derive(Clone, Copy, Eq, Hash, Debug)]
 pub struct UUID(pub u64);
+impl vstd::std_specs::cmp::PartialEqSpecImpl for UUID {
+    open spec fn obeys_eq_spec() -> bool { true }
+    open spec fn eq_spec(&self, other: &UUID) -> bool { *self == *other }
+}
+impl PartialEq for UUID { fn eq(&self, other: &Self) -> bool { self.0 == other.0 } }
 #[derive(Clone, Copy, Eq, Hash, Debug)]
 pub struct UserId(pub PublicKey);
 impl vstd::std_specs::cmp::PartialEqSpecImpl for UserId {
@@ -26,7 +46,7 @@ impl vstd::std_specs::cmp::PartialEqSpecImpl for UserId {
 }
 impl PartialEq for UserId { fn eq(&self, other: &Self) -> bool { self.0 == other.0 } }
 #[derive(Clone, Copy)]
-pub struct Header { pub h: BlockHash }
+pub struct Header { pub h: BlockHash, pub prev_blockhash: BlockHash }
 impl Header {
     pub fn block_hash(&self) -> (r: BlockHash) ensures r == self.h { self.h }
 }
